@@ -86,14 +86,30 @@ structure InvA (c : Cfg) (s : St) (h a : Nat) : Prop where
 /-- The min-age invariant: every block below the floor, and every block below the sample the pruner
 keeps, is OLDER than the minimum age (timestamp before the cut-off `now - minAge`). -/
 def AgeA (c : Cfg) (s : St) (a : Nat) : Prop :=
-  (∀ n, n < max a s.mem.keepMax → c.ts n < s.cutoff) ∧ (∀ i, i < s.mem.sampled.toNat → c.ts i < s.cutoff)
+  (∀ n, n < max a s.mem.keepMax → s.tsAt c n < s.cutoff) ∧
+  (c.sampleChecked = false → ∀ i, i < s.mem.sampled.toNat → s.tsAt c i < s.cutoff)
+
+/-- Timestamps do not decrease along the chain the node follows: the chain as first offered and every fork the
+network has switched to so far (`ForksMono`) are non-decreasing (hypotheses on the configuration), and every fork switch so far joined at a block that is not
+younger than the first block of the new fork (`Chain.mono`). -/
+def ForksMono (c : Cfg) (s : St) : Prop := ∀ f, 1 ≤ f → f ≤ s.chain.fork → Mono (c.forkTs f)
+
+def MonoI (c : Cfg) (s : St) : Prop :=
+  Mono c.ts → ForksMono c s → s.chain.mono = true → Mono (s.tsAt c)
+
+/-- The min-age part of the invariant: it needs non-decreasing timestamps, and — for the code in /repo, which
+uses the cached sample as it is — that no fork switch put a young block between the head and the cached sample
+(`Chain.fresh`); the proposed `refreshStaleSample` (`sampleChecked`) needs no such assumption. -/
+def AgeI (c : Cfg) (s : St) (a : Nat) : Prop :=
+  Mono c.ts → ForksMono c s → s.chain.mono = true → c.minAge = true →
+    (c.sampleChecked = true ∨ s.chain.fresh = true) → AgeA c s a
 
 /-- The invariant. -/
 def Inv (c : Cfg) (s : St) : Prop :=
   match s.db.height with
   | none => ((∀ i n, s.db.has i n = false) ∧ ∀ w, s.db.agg w = false) ∧ s.job = .idle ∧ s.mem.keepMax = 0 ∧
-      s.mem.floorState.toNat ≤ 1 ∧ s.mem.sampled = 0
-  | some h => ∃ a, InvA c s h a ∧ (Mono c.ts → c.minAge = true → AgeA c s a)
+      s.mem.floorState.toNat ≤ 1 ∧ s.mem.sampled = 0 ∧ MonoI c s
+  | some h => ∃ a, InvA c s h a ∧ (MonoI c s ∧ AgeI c s a)
 
 theorem oldest_of_inv {c : Cfg} {s : St} {h a : Nat} (hh : s.db.height = some h) (I : InvA c s h a) :
     oldest s.db = some a := by
@@ -808,10 +824,10 @@ theorem inv_leave_idle {c : Cfg} {s : St} {h a : Nat} (m' : Mem)
 
 /-- The memory of a fresh process satisfies the memory clauses. -/
 theorem restartMem_ok {c : Cfg} {s : St} {h a : Nat} (hh : s.db.height = some h) (I : InvA c s h a)
-    (cut : Nat) (seed : Bool) :
-    (restartMem c s.db cut seed).keepMax = 0 ∧
-    ((restartMem c s.db cut seed).floorState ≠ 0 → a ≤ (restartMem c s.db cut seed).floorState.toNat) ∧
-    (restartMem c s.db cut seed).floorState.toNat ≤ max a 1 := by
+    (ts : Nat → Nat) (cut : Nat) (seed : Bool) :
+    (restartMem c ts s.db cut seed).keepMax = 0 ∧
+    ((restartMem c ts s.db cut seed).floorState ≠ 0 → a ≤ (restartMem c ts s.db cut seed).floorState.toNat) ∧
+    (restartMem c ts s.db cut seed).floorState.toNat ≤ max a 1 := by
   have hlo : (oldest s.db).getD 0 = a := by rw [oldest_of_inv hh I]; rfl
   have ha : a < 2 ^ 64 := by have := I.hlt; have := I.ale; omega
   unfold restartMem
@@ -826,17 +842,31 @@ theorem restartMem_ok {c : Cfg} {s : St} {h a : Nat} (hh : s.db.height = some h)
 
 /-! ### the minimum age -/
 
+theorem tsAt_congr {c : Cfg} {s s' : St} (h : s'.chain = s.chain) : s'.tsAt c = s.tsAt c := by
+  funext n; unfold St.tsAt; rw [h]
+
+theorem monoI_congr {c : Cfg} {s s' : St} (h : s'.chain = s.chain) (M : MonoI c s) : MonoI c s' := by
+  unfold MonoI ForksMono at *; rw [tsAt_congr h, h]; exact M
+
+theorem ageI_congr {c : Cfg} {s s' : St} {a a' : Nat} (h : s'.chain = s.chain) (M : MonoI c s)
+    (e : Mono (s.tsAt c) → c.minAge = true → AgeA c s a → AgeA c s' a') (A : AgeI c s a) : AgeI c s' a' := by
+  intro h1 h2 h3 hma hg
+  unfold ForksMono at h2
+  rw [h] at h2 h3 hg
+  exact e (M h1 h2 h3) hma (A h1 h2 h3 hma hg)
+
 theorem age_keep {c : Cfg} {s s' : St} {a a' : Nat} (h1 : max a' s'.mem.keepMax ≤ max a s.mem.keepMax)
-    (h2 : s'.mem.sampled = s.mem.sampled) (h3 : s.cutoff ≤ s'.cutoff) (A : AgeA c s a) : AgeA c s' a' := by
-  refine ⟨fun n hn => ?_, fun i hi => ?_⟩
-  · have := A.1 n (by omega); omega
-  · rw [h2] at hi; have := A.2 i hi; omega
+    (h2 : s'.mem.sampled = s.mem.sampled) (h3 : s.cutoff ≤ s'.cutoff) (A : AgeA c s a)
+    (h4 : s'.tsAt c = s.tsAt c := by rfl) : AgeA c s' a' := by
+  refine ⟨fun n hn => ?_, fun hc i hi => ?_⟩
+  · rw [h4]; have := A.1 n (by omega); omega
+  · rw [h4]; rw [h2] at hi; have := A.2 hc i hi; omega
 
 /-- `sampleHeight` keeps the sample honest: on non-decreasing timestamps every block below the new sample is
 older than the cut-off, provided every block below the old one was. -/
-theorem sampleNode_age {c : Cfg} {d : Db} {h : Nat} (hm : Mono c.ts) (hh : d.height = some h) (hlt : h < 2 ^ 64)
-    (cut : Nat) (sampled : UInt64) (hbelow : ∀ i, i < sampled.toNat → c.ts i < cut) :
-    ∀ i, i < (sampleNode c d cut sampled).toNat → c.ts i < cut := by
+theorem sampleNode_age {ts : Nat → Nat} {d : Db} {h : Nat} (hm : Mono ts) (hh : d.height = some h) (hlt : h < 2 ^ 64)
+    (cut : Nat) (sampled : UInt64) (hbelow : ∀ i, i < sampled.toNat → ts i < cut) :
+    ∀ i, i < (sampleNode ts d cut sampled).toNat → ts i < cut := by
   intro i hi
   unfold sampleNode at hi
   rw [hh] at hi
@@ -845,9 +875,9 @@ theorem sampleNode_age {c : Cfg} {d : Db} {h : Nat} (hm : Mono c.ts) (hh : d.hei
   · rw [ofNat_toNat_of_lt h hlt] at hi; exact hbelow i (by omega)
   · rename_i hle
     split at hi
-    · have spec := findOldest_spec c.ts sampled.toNat h cut hm hbelow
+    · have spec := findOldest_spec ts sampled.toNat h cut hm hbelow
       unfold sampleHeight at hi
-      cases hf : findOldestAtOrAfter c.ts sampled.toNat h cut with
+      cases hf : findOldestAtOrAfter ts sampled.toNat h cut with
       | none =>
         rw [hf] at hi spec
         rw [ofNat_toNat_of_lt h hlt] at hi
@@ -859,9 +889,9 @@ theorem sampleNode_age {c : Cfg} {d : Db} {h : Nat} (hm : Mono c.ts) (hh : d.hei
         exact spec.2.2.2 i hi
     · exact hbelow i hi
 
-theorem seedSample_age {c : Cfg} {s : St} {h a : Nat} (hm : Mono c.ts) (hh : s.db.height = some h)
-    (I : InvA c s h a) (cut : Nat) (hbelow : ∀ i, i < a → c.ts i < cut) :
-    ∀ i, i < (seedSample c s.db cut).toNat → c.ts i < cut := by
+theorem seedSample_age {c : Cfg} {ts : Nat → Nat} {s : St} {h a : Nat} (hm : Mono ts) (hh : s.db.height = some h)
+    (I : InvA c s h a) (cut : Nat) (hbelow : ∀ i, i < a → ts i < cut) :
+    ∀ i, i < (seedSample c ts s.db cut).toNat → ts i < cut := by
   intro i hi
   unfold seedSample at hi
   split at hi
@@ -870,6 +900,30 @@ theorem seedSample_age {c : Cfg} {s : St} {h a : Nat} (hm : Mono c.ts) (hh : s.d
     have ha : a < 2 ^ 64 := by have := I.hlt; have := I.ale; omega
     exact sampleNode_age hm hh I.hlt cut (UInt64.ofNat a) (by rw [ofNat_toNat_of_lt a ha]; exact hbelow) i hi
   · exact absurd hi (by simp)
+
+/-- `refreshStaleSample` (proposed fix): whatever the cached sample was, afterwards every block below it is older
+than the cut-off — the block right below it was checked (and timestamps do not decrease), or the sample was
+derived again from the oldest retained block. -/
+theorem refreshSample_age {c : Cfg} {ts : Nat → Nat} {s : St} {h a : Nat} (hm : Mono ts) (hma : c.minAge = true)
+    (hh : s.db.height = some h) (I : InvA c s h a) (cut : Nat) (sampled : UInt64)
+    (hbelow : ∀ i, i < a → ts i < cut) :
+    ∀ i, i < (refreshSample c ts s.db cut sampled).1.toNat → ts i < cut := by
+  intro i hi
+  unfold refreshSample at hi
+  rw [oldest_of_inv hh I] at hi
+  simp only [hma, Bool.not_true, Bool.false_or] at hi
+  split at hi
+  · rename_i h0
+    have : sampled = 0 := by simpa using h0
+    rw [this] at hi; exact absurd hi (by simp)
+  · split at hi
+    · rename_i hchk
+      simp only [Bool.and_eq_true, decide_eq_true_eq] at hchk
+      have := hm i (sampled.toNat - 1) (by simp only at hi; omega)
+      omega
+    · simp only at hi
+      have ha : a < 2 ^ 64 := by have := I.hlt; have := I.ale; omega
+      exact sampleNode_age hm hh I.hlt cut (UInt64.ofNat a) (by rw [ofNat_toNat_of_lt a ha]; exact hbelow) i hi
 
 theorem migKeep_some_le (c : Cfg) (hma : c.minAge = true) (h : Nat) (l1 f keep : UInt64)
     (hk : migKeep c h l1 (some f) = some keep) : keep.toNat ≤ f.toNat := by
@@ -881,14 +935,14 @@ theorem migKeep_some_le (c : Cfg) (hma : c.minAge = true) (h : Nat) (l1 f keep :
   · simp at hk; subst hk; rw [umin_toNat]; omega
 
 /-- The migration's own cut-off respects the minimum age. -/
-theorem migKeep_age {c : Cfg} (hm : Mono c.ts) (hma : c.minAge = true) (h : Nat) (hlt : h < 2 ^ 64) (l1 keep : UInt64)
-    (cut : Nat) (hk : migKeep c h l1 (migMinAgeFloor c h l1 cut) = some keep) :
-    ∀ n, n < keep.toNat → c.ts n < cut := by
+theorem migKeep_age {c : Cfg} {ts : Nat → Nat} (hm : Mono ts) (hma : c.minAge = true) (h : Nat) (hlt : h < 2 ^ 64)
+    (l1 keep : UInt64) (cut : Nat) (hk : migKeep c h l1 (migMinAgeFloor ts h l1 cut) = some keep) :
+    ∀ n, n < keep.toNat → ts n < cut := by
   intro n hn
   have hb := migKeep_bound c h hlt l1 _ keep hk
-  have spec := findOldest_spec c.ts 0 (if l1.toNat ≤ h then l1.toNat else h) cut hm (fun i hi => absurd hi (by omega))
+  have spec := findOldest_spec ts 0 (if l1.toNat ≤ h then l1.toNat else h) cut hm (fun i hi => absurd hi (by omega))
   have hp : (if l1.toNat ≤ h then l1.toNat else h) = min l1.toNat h := by split <;> omega
-  cases hf : findOldestAtOrAfter c.ts 0 (if l1.toNat ≤ h then l1.toNat else h) cut with
+  cases hf : findOldestAtOrAfter ts 0 (if l1.toNat ≤ h then l1.toNat else h) cut with
   | none =>
     rw [hf] at spec
     exact spec n (by omega)
@@ -897,7 +951,7 @@ theorem migKeep_age {c : Cfg} (hm : Mono c.ts) (hma : c.minAge = true) (h : Nat)
     simp only at spec
     have hr : r < 2 ^ 64 := by
       have := spec.2.1; have := l1.toNat_lt; omega
-    have he : migMinAgeFloor c h l1 cut = some (UInt64.ofNat r) := by
+    have he : migMinAgeFloor ts h l1 cut = some (UInt64.ofNat r) := by
       unfold migMinAgeFloor; simp only [hf, Option.map_some]
     rw [he] at hk
     have := migKeep_some_le c hma h l1 _ keep hk
@@ -1021,26 +1075,37 @@ theorem startPrune_mem (s : St) (keep : UInt64) :
     · exact ⟨rfl, rfl, rfl, Or.inr ⟨st, rfl, rfl⟩⟩
     · split <;> exact ⟨rfl, rfl, rfl, Or.inl rfl⟩
 
+theorem startPrune_chain (s : St) (keep : UInt64) : (startPrune s keep).1.chain = s.chain := by
+  unfold startPrune
+  cases oldest s.db with
+  | none => rfl
+  | some st =>
+    simp only []
+    split
+    · rfl
+    · split <;> rfl
+
 theorem raiseForPrune_ge (st keep : UInt64) : st.toNat ≤ (raiseForPrune st keep).toNat := by
   rw [raiseForPrune_toNat]; split <;> omega
 
 /-- `pruneUpto(keep)` keeps the min-age invariant when every block below `keep` is old enough. -/
 theorem age_startPrune {c : Cfg} {s : St} {h a : Nat} (hh : s.db.height = some h) (I : InvA c s h a)
-    (keep : UInt64) (hold : ∀ n, n < keep.toNat → c.ts n < s.cutoff) (A : AgeA c s a) :
+    (keep : UInt64) (hold : ∀ n, n < keep.toNat → s.tsAt c n < s.cutoff) (A : AgeA c s a) :
     AgeA c (startPrune s keep).1 a := by
   obtain ⟨m1, _, m3, m4⟩ := startPrune_mem s keep
-  refine ⟨fun n hn => ?_, fun i hi => ?_⟩
-  · rw [m3]; rw [m1] at hn
+  have hts : (startPrune s keep).1.tsAt c = s.tsAt c := tsAt_congr (startPrune_chain s keep)
+  refine ⟨fun n hn => ?_, fun hc i hi => ?_⟩
+  · rw [m3, hts]; rw [m1] at hn
     by_cases h1 : n < max a s.mem.keepMax
     · exact A.1 n h1
     · exact hold n (by omega)
-  · rw [m3]
+  · rw [m3, hts]
     rcases m4 with e | ⟨st, e1, e2⟩
-    · rw [e] at hi; exact A.2 i hi
+    · rw [e] at hi; exact A.2 hc i hi
     · rw [oldest_of_inv hh I] at e1; cases e1
       rw [e2, umax_toNat, ofNat_toNat_of_lt a (by have := I.hlt; have := I.ale; omega)] at hi
       by_cases h1 : i < s.mem.sampled.toNat
-      · exact A.2 i h1
+      · exact A.2 hc i h1
       · exact A.1 i (by omega)
 
 /-- What one legal step guarantees. -/
@@ -1062,7 +1127,7 @@ theorem facts_some {c : Cfg} {s : St} {op : Op} {h a h' a' : Nat}
     (h3 : (step c s op).1.mem.keepMax ≤ max s.mem.keepMax (allowed c s op))
     (h4 : ((∀ seed, op ≠ .crash seed) ∧ ∀ u, op ≠ .migrate u) →
       s.mem.floorState.toNat ≤ (step c s op).1.mem.floorState.toNat)
-    (hA : Mono c.ts → c.minAge = true → AgeA c (step c s op).1 a') :
+    (hA : MonoI c (step c s op).1 ∧ AgeI c (step c s op).1 a') :
     StepFacts c s op := by
   refine ⟨?_, ?_, ?_, h4⟩
   · unfold Inv; rw [hh']; exact ⟨a', IA', hA⟩
@@ -1072,8 +1137,52 @@ theorem facts_some {c : Cfg} {s : St} {op : Op} {h a h' a' : Nat}
 theorem lo_empty {d : Db} (h : d.height = none) : lo d = 0 := by
   unfold lo; rw [oldest_empty h]; rfl
 
-theorem seedSample_empty (c : Cfg) {d : Db} (h : d.height = none) (cut : Nat) : seedSample c d cut = 0 := by
+theorem seedSample_empty (c : Cfg) (ts : Nat → Nat) {d : Db} (h : d.height = none) (cut : Nat) :
+    seedSample c ts d cut = 0 := by
   unfold seedSample; rw [oldest_empty h]; split <;> rfl
+
+/-- `pruneUpto(keep)` after the proposed `refreshStaleSample` (or a plain update of pending / sample): the state
+the prune starts from differs from `s` in `pending` and `sampled` only. -/
+theorem age_resampled {c : Cfg} {s : St} {a : Nat} (sm : UInt64) (hc : c.sampleChecked = true) (A : AgeA c s a) :
+    AgeA c { s with mem := { s.mem with pending := 0, sampled := sm } } a :=
+  ⟨A.1, fun hf => absurd hc (by rw [hf]; simp)⟩
+
+theorem forkChain_tsAt (c : Cfg) (s : St) (n : Nat) :
+    ({ s with chain := forkChain c s } : St).tsAt c n =
+      if n < forkBase s.db then s.tsAt c n else c.forkTs (s.chain.fork + 1) n := by
+  show (if (forkChain c s).fork = 0 then c.ts n else (forkChain c s).ts n) = _
+  have : (forkChain c s).fork = s.chain.fork + 1 := rfl
+  rw [this]
+  simp only [Nat.add_one_ne_zero, if_false]
+  rfl
+
+/-- A fork switch keeps the timestamps non-decreasing when the first block of the new fork is not older than
+the block it builds on. -/
+theorem fork_monoI {c : Cfg} {s : St} (M : MonoI c s) : MonoI c { s with chain := forkChain c s } := by
+  intro h1 h2 h3
+  have h3' : (forkChain c s).mono = true := h3
+  unfold forkChain at h3'
+  simp only [Bool.and_eq_true, Bool.or_eq_true, beq_iff_eq, decide_eq_true_eq] at h3'
+  obtain ⟨hmo, hj⟩ := h3'
+  have h2o : ForksMono c s := fun f a b => h2 f a (Nat.le_succ_of_le b)
+  have hold := M h1 h2o hmo
+  intro i j hij
+  rw [forkChain_tsAt, forkChain_tsAt]
+  generalize forkBase s.db = b at hj ⊢
+  by_cases hi : i < b
+  · by_cases hj' : j < b
+    · simp only [hi, hj', if_true]; exact hold i j hij
+    · simp only [hi, hj', if_true, if_false]
+      rcases hj with hb | hb
+      · omega
+      · have hbb : ¬ b < b := by omega
+        simp only [hbb, if_false] at hb
+        have e1 := hold i (b - 1) (by omega)
+        have e2 := h2 (s.chain.fork + 1) (by omega) (Nat.le_refl _) b j (by omega)
+        omega
+  · have hj' : ¬ j < b := by omega
+    simp only [hi, hj', if_false]
+    exact h2 (s.chain.fork + 1) (by omega) (Nat.le_refl _) i j hij
 
 /-- Every legal operation preserves the invariant, moves the floor only up and only as far as allowed. -/
 theorem step_facts {c : Cfg} {s : St} (op : Op) (I : Inv c s) (L : Legal c s op) : StepFacts c s op := by
@@ -1082,17 +1191,17 @@ theorem step_facts {c : Cfg} {s : St} (op : Op) (I : Inv c s) (L : Legal c s op)
   | none =>
     rw [hh] at I
     simp only at I
-    obtain ⟨⟨he, hag⟩, hj, hk, hf, hsm⟩ := I
+    obtain ⟨⟨he, hag⟩, hj, hk, hf, hsm, hmo⟩ := I
     have hF : effFloor s = 0 := by unfold effFloor; rw [lo_empty hh, hk]; rfl
     -- steps that leave height, entries, job and the ghost alone
     have same : ∀ (s' : St), (step c s op).1 = s' → s'.db.height = none → s'.db.has = s.db.has →
         s'.db.agg = s.db.agg → s'.job = .idle → s'.mem.keepMax = 0 → s'.mem.floorState.toNat ≤ 1 →
-        s'.mem.sampled = 0 →
+        s'.mem.sampled = 0 → MonoI c s' →
         (((∀ seed, op ≠ .crash seed) ∧ ∀ u, op ≠ .migrate u) →
           s.mem.floorState.toNat ≤ s'.mem.floorState.toNat) → StepFacts c s op := by
-      intro s' e0 e1 e2 e2' e3 e4 e5 e5' e6
+      intro s' e0 e1 e2 e2' e3 e4 e5 e5' e7 e6
       refine ⟨?_, ?_, ?_, ?_⟩
-      · rw [e0]; unfold Inv; rw [e1]; exact ⟨⟨by rw [e2]; exact he, by rw [e2']; exact hag⟩, e3, e4, e5, e5'⟩
+      · rw [e0]; unfold Inv; rw [e1]; exact ⟨⟨by rw [e2]; exact he, by rw [e2']; exact hag⟩, e3, e4, e5, e5', e7⟩
       · rw [e0, hF]; unfold effFloor; rw [lo_empty e1, e4]; simp
       · rw [e0, lo_empty hh]; omega
       · rw [e0]; exact e6
@@ -1100,9 +1209,11 @@ theorem step_facts {c : Cfg} {s : St} (op : Op) (I : Inv c s) (L : Legal c s op)
     | store =>
       have := inv_store_empty (c := c) hh ⟨⟨he, hag⟩, hj, hk, hf⟩
       have hmem := step_store_mem c s
+      have hch : (step c s .store).1.chain = s.chain := by
+        simp only [step, hh]
       refine ⟨?_, ?_, ?_, ?_⟩
       · unfold Inv; rw [this.2.2]
-        refine ⟨0, this.2.1, fun _ _ => ⟨fun n hn => ?_, fun i hi => ?_⟩⟩
+        refine ⟨0, this.2.1, monoI_congr hch hmo, fun _ _ _ _ _ => ⟨fun n hn => ?_, fun _ i hi => ?_⟩⟩
         · rw [hmem.1, hk] at hn; omega
         · rw [hmem.1, hsm] at hi; exact absurd hi (by simp)
       · unfold effFloor; rw [lo_of_inv this.2.2 this.2.1]
@@ -1111,24 +1222,24 @@ theorem step_facts {c : Cfg} {s : St} (op : Op) (I : Inv c s) (L : Legal c s op)
       · intro _; rw [hmem.1]; exact Nat.le_refl _
     | revert => obtain ⟨h', h1, _⟩ := L; rw [hh] at h1; cases h1
     | writeL1 n =>
-      exact same ⟨{ s.db with l1 := some n }, s.mem, s.job, s.cutoff⟩ rfl hh rfl rfl hj hk hf hsm (fun _ => Nat.le_refl _)
-    | evL1 n => exact same s (by simp only [step, hj, hh]) hh rfl rfl hj hk hf hsm (fun _ => Nat.le_refl _)
+      exact same ⟨{ s.db with l1 := some n }, s.mem, s.job, s.cutoff, s.chain⟩ rfl hh rfl rfl hj hk hf hsm hmo (fun _ => Nat.le_refl _)
+    | evL1 n => exact same s (by simp only [step, hj, hh]) hh rfl rfl hj hk hf hsm hmo (fun _ => Nat.le_refl _)
     | evL2 n =>
       obtain ⟨_, hcl⟩ := L
       rcases hcl with hcl | ⟨h', h1, _⟩
-      · refine same s ?_ hh rfl rfl hj hk hf hsm (fun _ => Nat.le_refl _)
+      · refine same s ?_ hh rfl rfl hj hk hf hsm hmo (fun _ => Nat.le_refl _)
         simp only [step, hj]
         cases hl1 : s.db.l1 with
         | none => rfl
         | some l1 => simp [hcl, hh]
       · rw [hh] at h1; cases h1
-    | flush k => exact same s (by simp only [step, hj]) hh rfl rfl hj hk hf hsm (fun _ => Nat.le_refl _)
-    | finish => exact same s (by simp only [step, hj]) hh rfl rfl hj hk hf hsm (fun _ => Nat.le_refl _)
-    | fail => exact same s (by simp only [step, hj]) hh rfl rfl hj hk hf hsm (fun _ => Nat.le_refl _)
+    | flush k => exact same s (by simp only [step, hj]) hh rfl rfl hj hk hf hsm hmo (fun _ => Nat.le_refl _)
+    | finish => exact same s (by simp only [step, hj]) hh rfl rfl hj hk hf hsm hmo (fun _ => Nat.le_refl _)
+    | fail => exact same s (by simp only [step, hj]) hh rfl rfl hj hk hf hsm hmo (fun _ => Nat.le_refl _)
     | crash seed =>
-      refine same ⟨s.db, restartMem c s.db s.cutoff seed, .idle, s.cutoff⟩ rfl hh rfl rfl rfl rfl ?_
-        (seedSample_empty c hh _) (fun hne => absurd rfl (hne.1 seed))
-      show (restartMem c s.db s.cutoff seed).floorState.toNat ≤ 1
+      refine same ⟨s.db, restartMem c (s.tsAt c) s.db s.cutoff seed, .idle, s.cutoff, s.chain⟩ rfl hh rfl rfl rfl rfl ?_
+        (seedSample_empty c _ hh _) hmo (fun hne => absurd rfl (hne.1 seed))
+      show (restartMem c (s.tsAt c) s.db s.cutoff seed).floorState.toNat ≤ 1
       unfold restartMem
       simp only [oldest_empty hh, Option.getD_none]
       cases seed with
@@ -1139,17 +1250,20 @@ theorem step_facts {c : Cfg} {s : St} (op : Op) (I : Inv c s) (L : Legal c s op)
         simp at this ⊢; omega
     | tick =>
       by_cases hma : c.minAge = true
-      · refine same ⟨s.db, { s.mem with sampled := sampleNode c s.db s.cutoff s.mem.sampled }, s.job, s.cutoff⟩
-          (by simp only [step, hma, if_true]) hh rfl rfl hj hk hf ?_ (fun _ => Nat.le_refl _)
-        show sampleNode c s.db s.cutoff s.mem.sampled = 0
+      · refine same ⟨s.db, { s.mem with sampled := sampleNode (s.tsAt c) s.db s.cutoff s.mem.sampled }, s.job, s.cutoff, s.chain⟩
+          (by simp only [step, hma, if_true]) hh rfl rfl hj hk hf ?_ hmo (fun _ => Nat.le_refl _)
+        show sampleNode (s.tsAt c) s.db s.cutoff s.mem.sampled = 0
         unfold sampleNode; rw [hh]; exact hsm
-      · exact same s (by simp only [step, hma, Bool.false_eq_true, if_false]) hh rfl rfl hj hk hf hsm (fun _ => Nat.le_refl _)
+      · exact same s (by simp only [step, hma, Bool.false_eq_true, if_false]) hh rfl rfl hj hk hf hsm hmo (fun _ => Nat.le_refl _)
     | advance d =>
-      exact same ⟨s.db, s.mem, s.job, s.cutoff + d⟩ rfl hh rfl rfl hj hk hf hsm (fun _ => Nat.le_refl _)
+      exact same ⟨s.db, s.mem, s.job, s.cutoff + d, s.chain⟩ rfl hh rfl rfl hj hk hf hsm hmo (fun _ => Nat.le_refl _)
+    | fork =>
+      exact same ⟨s.db, s.mem, s.job, s.cutoff, forkChain c s⟩ rfl hh rfl rfl hj hk hf hsm (fork_monoI hmo)
+        (fun _ => Nat.le_refl _)
     | migrate u =>
-      refine same ⟨s.db, restartMem c s.db s.cutoff true, s.job, s.cutoff⟩ (by simp only [step, hj, hh]) hh rfl rfl hj rfl ?_
-        (seedSample_empty c hh _) (fun hne => absurd rfl (hne.2 u))
-      show (restartMem c s.db s.cutoff true).floorState.toNat ≤ 1
+      refine same ⟨s.db, restartMem c (s.tsAt c) s.db s.cutoff true, s.job, s.cutoff, s.chain⟩ (by simp only [step, hj, hh]) hh rfl rfl hj rfl ?_
+        (seedSample_empty c _ hh _) hmo (fun hne => absurd rfl (hne.2 u))
+      show (restartMem c (s.tsAt c) s.db s.cutoff true).floorState.toNat ≤ 1
       unfold restartMem
       simp only [oldest_empty hh, Option.getD_none]
       have := seedState_zero (UInt64.ofNat 0)
@@ -1158,47 +1272,54 @@ theorem step_facts {c : Cfg} {s : St} (op : Op) (I : Inv c s) (L : Legal c s op)
   | some h =>
     rw [hh] at I
     simp only at I
-    obtain ⟨a, IA, AG⟩ := I
-    -- steps that keep head and durable floor
+    obtain ⟨a, IA, MG, AG⟩ := I
+    -- steps that keep head, durable floor and the chain
     have keepH : ∀ s' : St, (step c s op).1 = s' → s'.db.height = some h → InvA c s' h a →
         s'.mem.keepMax ≤ max s.mem.keepMax (allowed c s op) →
         (((∀ seed, op ≠ .crash seed) ∧ ∀ u, op ≠ .migrate u) →
           s.mem.floorState.toNat ≤ s'.mem.floorState.toNat) →
-        (Mono c.ts → c.minAge = true → AgeA c s a → AgeA c s' a) → StepFacts c s op := by
-      intro s' e0 e1 e2 e3 e4 e5
+        (Mono (s.tsAt c) → c.minAge = true → AgeA c s a → AgeA c s' a) → s'.chain = s.chain → StepFacts c s op := by
+      intro s' e0 e1 e2 e3 e4 e5 e6
       exact facts_some hh IA (by rw [e0]; exact e1) (by rw [e0]; exact e2) (Nat.le_refl _) (by omega)
-        (by rw [e0]; exact e3) (by rw [e0]; exact e4) (by rw [e0]; exact fun hm hma => e5 hm hma (AG hm hma))
+        (by rw [e0]; exact e3) (by rw [e0]; exact e4)
+        (by rw [e0]; exact ⟨monoI_congr e6 MG, fun h1 h2 h3 hma hg => by
+          unfold ForksMono at h2
+          rw [e6] at h2 h3 hg; exact e5 (MG h1 h2 h3) hma (AG h1 h2 h3 hma hg)⟩)
     have unchanged : (step c s op).1 = s → StepFacts c s op := fun e =>
-      keepH s e hh IA (by omega) (fun _ => Nat.le_refl _) (fun _ _ A => A)
+      keepH s e hh IA (by omega) (fun _ => Nat.le_refl _) (fun _ _ A => A) rfl
     -- a fresh process on the same database (crash, or a migration that has nothing to do)
-    have restarted : ∀ (seed : Bool), (step c s op).1 = ⟨s.db, restartMem c s.db s.cutoff seed, .idle, s.cutoff⟩ →
+    have restarted : ∀ (seed : Bool), (step c s op).1 = ⟨s.db, restartMem c (s.tsAt c) s.db s.cutoff seed, .idle, s.cutoff, s.chain⟩ →
         interruptible c s.job → ¬((∀ seed, op ≠ .crash seed) ∧ ∀ u, op ≠ .migrate u) → StepFacts c s op := by
       intro seed e hI hop
-      obtain ⟨r1, r2, r3⟩ := restartMem_ok hh IA s.cutoff seed
-      have hage : Mono c.ts → c.minAge = true → AgeA c s a →
-          AgeA c ⟨s.db, restartMem c s.db s.cutoff seed, .idle, s.cutoff⟩ a := by
+      obtain ⟨r1, r2, r3⟩ := restartMem_ok hh IA (s.tsAt c) s.cutoff seed
+      have hage : Mono (s.tsAt c) → c.minAge = true → AgeA c s a →
+          AgeA c ⟨s.db, restartMem c (s.tsAt c) s.db s.cutoff seed, .idle, s.cutoff, s.chain⟩ a := by
         intro hm _ A
-        refine ⟨fun n hn => A.1 n ?_, ?_⟩
-        · have : (restartMem c s.db s.cutoff seed).keepMax = 0 := r1
+        refine ⟨fun n hn => A.1 n ?_, fun _ => ?_⟩
+        · have : (restartMem c (s.tsAt c) s.db s.cutoff seed).keepMax = 0 := r1
           simp only [this] at hn; omega
         · exact seedSample_age hm hh IA s.cutoff (fun i hi => A.1 i (by omega))
       cases hjob : s.job with
       | idle =>
         exact keepH _ e hh
           ((inv_leave_idle _ IA hjob (by omega) (fun hne => ⟨r2 hne, by omega⟩) (by omega) (by omega)).congr rfl rfl rfl rfl)
-          (by show (restartMem c s.db s.cutoff seed).keepMax ≤ _; omega) (fun hne => absurd hne hop) hage
+          (by show (restartMem c (s.tsAt c) s.db s.cutoff seed).keepMax ≤ _; omega) (fun hne => absurd hne hop) hage rfl
       | run st en cu fi =>
         rw [hjob] at hI
         exact keepH _ e hh
           ((inv_leave _ IA hjob hI (by omega) (fun hne => ⟨r2 hne, by omega⟩) (by omega) (by omega)).congr rfl rfl rfl rfl)
-          (by show (restartMem c s.db s.cutoff seed).keepMax ≤ _; omega) (fun hne => absurd hne hop) hage
+          (by show (restartMem c (s.tsAt c) s.db s.cutoff seed).keepMax ≤ _; omega) (fun hne => absurd hne hop) hage rfl
     cases op with
     | store =>
       have := inv_store hh IA (L h hh)
       have hmem := step_store_mem c s
+      have hch : (step c s .store).1.chain = s.chain := by
+        simp only [step, hh]; split <;> rfl
       exact facts_some hh IA this.2.2 this.2.1 (Nat.le_refl _) (by omega)
         (by rw [hmem.1]; omega) (fun _ => by rw [hmem.1]; exact Nat.le_refl _)
-        (fun hm hma => age_keep (by rw [hmem.1]; exact Nat.le_refl _) (by rw [hmem.1]) (by rw [hmem.2]; exact Nat.le_refl _) (AG hm hma))
+        ⟨monoI_congr hch MG, ageI_congr hch MG (fun _ _ A =>
+          age_keep (by rw [hmem.1]; exact Nat.le_refl _) (by rw [hmem.1]) (by rw [hmem.2]; exact Nat.le_refl _) A
+            (tsAt_congr hch)) AG⟩
     | revert =>
       obtain ⟨h', h1, h2⟩ := L
       rw [hh] at h1; cases h1
@@ -1206,24 +1327,80 @@ theorem step_facts {c : Cfg} {s : St} (op : Op) (I : Inv c s) (L : Legal c s op)
       rw [lo_of_inv hh IA] at h2
       have := inv_revert hh IA h2
       have hmem := step_revert_mem c s
+      have hch : (step c s .revert).1.chain = s.chain := by
+        simp only [step, hh]; split <;> rfl
       exact facts_some hh IA this.2.2 this.2.1 (Nat.le_refl _) (by omega)
         (by rw [hmem.1]; omega) (fun _ => by rw [hmem.1]; exact Nat.le_refl _)
-        (fun hm hma => age_keep (by rw [hmem.1]; exact Nat.le_refl _) (by rw [hmem.1]) (by rw [hmem.2]; exact Nat.le_refl _) (AG hm hma))
+        ⟨monoI_congr hch MG, ageI_congr hch MG (fun _ _ A =>
+          age_keep (by rw [hmem.1]; exact Nat.le_refl _) (by rw [hmem.1]) (by rw [hmem.2]; exact Nat.le_refl _) A
+            (tsAt_congr hch)) AG⟩
     | writeL1 n =>
-      exact keepH ⟨{ s.db with l1 := some n }, s.mem, s.job, s.cutoff⟩ rfl hh (IA.congr rfl rfl rfl rfl)
+      exact keepH ⟨{ s.db with l1 := some n }, s.mem, s.job, s.cutoff, s.chain⟩ rfl hh (IA.congr rfl rfl rfl rfl)
         (by show s.mem.keepMax ≤ _; omega) (fun _ => Nat.le_refl _)
-        (fun _ _ A => age_keep (Nat.le_refl _) rfl (Nat.le_refl _) A)
+        (fun _ _ A => age_keep (Nat.le_refl _) rfl (Nat.le_refl _) A) rfl
     | advance d =>
-      exact keepH ⟨s.db, s.mem, s.job, s.cutoff + d⟩ rfl hh (IA.congr rfl rfl rfl rfl)
+      exact keepH ⟨s.db, s.mem, s.job, s.cutoff + d, s.chain⟩ rfl hh (IA.congr rfl rfl rfl rfl)
         (by show s.mem.keepMax ≤ _; omega) (fun _ => Nat.le_refl _)
-        (fun _ _ A => age_keep (s := s) (Nat.le_refl _) rfl (Nat.le_add_right _ _) A)
+        (fun _ _ A => age_keep (s := s) (Nat.le_refl _) rfl (Nat.le_add_right _ _) A) rfl
+    | fork =>
+      -- only timestamps above the head change hands
+      have hb : forkBase s.db = h + 1 := by unfold forkBase; rw [hh]
+      have hI' : InvA c ⟨s.db, s.mem, s.job, s.cutoff, forkChain c s⟩ h a := IA.congr rfl rfl rfl rfl
+      have htsAll : ∀ n, (⟨s.db, s.mem, s.job, s.cutoff, forkChain c s⟩ : St).tsAt c n =
+          if n < h + 1 then s.tsAt c n else c.forkTs (s.chain.fork + 1) n := by
+        intro n
+        have := forkChain_tsAt c s n
+        rw [hb] at this
+        exact this
+      have hts : ∀ n, n ≤ h → (⟨s.db, s.mem, s.job, s.cutoff, forkChain c s⟩ : St).tsAt c n = s.tsAt c n := by
+        intro n hn
+        rw [htsAll n]
+        have : n < h + 1 := by omega
+        simp only [this, if_true]
+      have hAge : AgeI c ⟨s.db, s.mem, s.job, s.cutoff, forkChain c s⟩ a := by
+        intro h1 h2 h3 hma hg
+        have h3m : (forkChain c s).mono = true := h3
+        have h3' : s.chain.mono = true := by
+          unfold forkChain at h3m; simp only [Bool.and_eq_true] at h3m; exact h3m.1
+        have hfr : c.sampleChecked = false →
+            s.chain.fresh = true ∧ ∀ j, j < s.mem.sampled.toNat - (h + 1) →
+              (⟨s.db, s.mem, s.job, s.cutoff, forkChain c s⟩ : St).tsAt c (h + 1 + j) < s.cutoff := by
+          intro hc
+          rcases hg with hg | hg
+          · rw [hc] at hg; cases hg
+          · have hg' : (forkChain c s).fresh = true := hg
+            unfold forkChain at hg'
+            simp only [hb, Bool.and_eq_true, List.all_eq_true, List.mem_range, decide_eq_true_eq] at hg'
+            refine ⟨hg'.1, fun j hj => ?_⟩
+            have e := hg'.2 j hj
+            rw [htsAll (h + 1 + j)]
+            exact e
+        have hg' : c.sampleChecked = true ∨ s.chain.fresh = true := by
+          cases hc : c.sampleChecked with
+          | true => exact Or.inl rfl
+          | false => exact Or.inr (hfr hc).1
+        have A := AG h1 (fun f a b => h2 f a (Nat.le_succ_of_le b)) h3' hma hg'
+        refine ⟨fun n hn => ?_, fun hc i hi => ?_⟩
+        · have hK := IA.keepLe; have hale := IA.ale
+          have hn' : n < max a s.mem.keepMax := hn
+          rw [hts n (by omega)]; exact A.1 n hn'
+        · have hi' : i < s.mem.sampled.toNat := hi
+          by_cases hle : i ≤ h
+          · rw [hts i hle]; exact A.2 hc i hi'
+          · have := (hfr hc).2 (i - (h + 1)) (by omega)
+            have e : h + 1 + (i - (h + 1)) = i := by omega
+            rw [e] at this; exact this
+      have hstep : (step c s .fork).1 = ⟨s.db, s.mem, s.job, s.cutoff, forkChain c s⟩ := rfl
+      exact facts_some hh IA (by rw [hstep]; exact hh) (by rw [hstep]; exact hI') (Nat.le_refl _) (by omega)
+        (by rw [hstep]; show s.mem.keepMax ≤ _; omega)
+        (fun _ => by rw [hstep]; exact Nat.le_refl _) (by rw [hstep]; exact ⟨fork_monoI MG, hAge⟩)
     | tick =>
       by_cases hma : c.minAge = true
-      · refine keepH ⟨s.db, { s.mem with sampled := sampleNode c s.db s.cutoff s.mem.sampled }, s.job, s.cutoff⟩
+      · refine keepH ⟨s.db, { s.mem with sampled := sampleNode (s.tsAt c) s.db s.cutoff s.mem.sampled }, s.job, s.cutoff, s.chain⟩
           (by simp only [step, hma, if_true]) hh (IA.congr rfl rfl rfl rfl)
-          (by show s.mem.keepMax ≤ _; omega) (fun _ => Nat.le_refl _) ?_
+          (by show s.mem.keepMax ≤ _; omega) (fun _ => Nat.le_refl _) ?_ rfl
         intro hm _ A
-        exact ⟨A.1, sampleNode_age hm hh IA.hlt s.cutoff s.mem.sampled A.2⟩
+        exact ⟨A.1, fun hc => sampleNode_age hm hh IA.hlt s.cutoff s.mem.sampled (A.2 hc)⟩
       · exact unchanged (by simp only [step, hma, Bool.false_eq_true, if_false])
     | evL1 n =>
       cases hjob : s.job with
@@ -1232,22 +1409,74 @@ theorem step_facts {c : Cfg} {s : St} (op : Op) (I : Inv c s) (L : Legal c s op)
         cases hk : l1Keep c s.mem.sampled h n with
         | none => exact unchanged (by simp only [step, hjob, hh, hk])
         | some keep =>
-          have hb := l1Keep_bound c _ _ _ _ hk
-          have I0 : InvA c { s with mem := { s.mem with pending := 0 }, job := .idle } h a :=
-            IA.congr rfl hjob.symm rfl rfl
-          have hsp := inv_startPrune (s := { s with mem := { s.mem with pending := 0 }, job := .idle })
-            hh I0 rfl keep (by omega) L
-          have hm := startPrune_mem { s with mem := { s.mem with pending := 0 }, job := .idle } keep
-          refine keepH (startPrune { s with mem := { s.mem with pending := 0 }, job := .idle } keep).1
-            (by simp only [step, hjob, hh, hk]) (by rw [hsp.2]; exact hh) hsp.1 ?_ ?_ ?_
-          · rw [hm.1]
-            show max s.mem.keepMax keep.toNat ≤ max s.mem.keepMax (allowed c s (.evL1 n))
-            simp only [allowed, hh]; omega
-          · intro _; rw [hm.2.1]; exact raiseForPrune_ge _ _
-          · intro hmo hma A
-            have hks := l1Keep_minAge c s.mem.sampled h n keep hma hk
-            exact age_startPrune (s := { s with mem := { s.mem with pending := 0 }, job := .idle }) hh I0 keep
-              (fun m hmk => A.2 m (by omega)) A
+          cases hsc : c.sampleChecked with
+          | false =>
+            have hb := l1Keep_bound c _ _ _ _ hk
+            have I0 : InvA c { s with mem := { s.mem with pending := 0 }, job := .idle } h a :=
+              IA.congr rfl hjob.symm rfl rfl
+            have hsp := inv_startPrune (s := { s with mem := { s.mem with pending := 0 }, job := .idle })
+              hh I0 rfl keep (by omega) L
+            have hm := startPrune_mem { s with mem := { s.mem with pending := 0 }, job := .idle } keep
+            refine keepH (startPrune { s with mem := { s.mem with pending := 0 }, job := .idle } keep).1
+              (by simp only [step, hjob, hh, hk, hsc, Bool.false_eq_true, if_false]) (by rw [hsp.2]; exact hh) hsp.1 ?_ ?_ ?_
+              (startPrune_chain _ _)
+            · rw [hm.1]
+              show max s.mem.keepMax keep.toNat ≤ max s.mem.keepMax (allowed c s (.evL1 n))
+              simp only [allowed, hh]; omega
+            · intro _; rw [hm.2.1]; exact raiseForPrune_ge _ _
+            · intro hmo hma A
+              have hks := l1Keep_minAge c s.mem.sampled h n keep hma hk
+              exact age_startPrune (s := { s with mem := { s.mem with pending := 0 }, job := .idle }) hh I0 keep
+                (fun m hmk => A.2 hsc m (by omega)) A
+          | true =>
+            -- the proposed `refreshStaleSample` runs first
+            have hstep : (step c s (.evL1 n)) =
+                (let r := refreshSample c (s.tsAt c) s.db s.cutoff s.mem.sampled
+                 let s1 : St := { s with mem := { s.mem with pending := 0, sampled := r.1 } }
+                 if r.2 then
+                   match l1Keep c r.1 h n with
+                   | none => (s1, .noop)
+                   | some keep' => startPrune s1 keep'
+                 else (s1, .err)) := by
+              simp only [step, hjob, hh, hk, hsc, if_true]
+              rfl
+            generalize hr : refreshSample c (s.tsAt c) s.db s.cutoff s.mem.sampled = r at hstep
+            have I1 : InvA c { s with mem := { s.mem with pending := 0, sampled := r.1 } } h a :=
+              IA.congr rfl rfl rfl rfl
+            have quiet : (step c s (.evL1 n)).1 = { s with mem := { s.mem with pending := 0, sampled := r.1 } } →
+                StepFacts c s (.evL1 n) := fun e =>
+              keepH { s with mem := { s.mem with pending := 0, sampled := r.1 } } e hh I1
+                (by show s.mem.keepMax ≤ _; omega) (fun _ => Nat.le_refl _)
+                (fun _ _ A => age_resampled r.1 hsc A) rfl
+            cases hok : r.2 with
+            | false => exact quiet (by rw [hstep]; simp only [hok, Bool.false_eq_true, if_false])
+            | true =>
+              cases hk' : l1Keep c r.1 h n with
+              | none => exact quiet (by rw [hstep]; simp only [hok, if_true, hk'])
+              | some keep' =>
+                have hb := l1Keep_bound c _ _ _ _ hk'
+                have I0 : InvA c { s with mem := { s.mem with pending := 0, sampled := r.1 }, job := .idle } h a :=
+                  IA.congr rfl hjob.symm rfl rfl
+                have hsp := inv_startPrune (s := { s with mem := { s.mem with pending := 0, sampled := r.1 }, job := .idle })
+                  hh I0 rfl keep' (by omega) L
+                have hm := startPrune_mem { s with mem := { s.mem with pending := 0, sampled := r.1 }, job := .idle } keep'
+                have hjs : ({ s with mem := { s.mem with pending := 0, sampled := r.1 } } : St) =
+                    { s with mem := { s.mem with pending := 0, sampled := r.1 }, job := .idle } := by
+                  cases s; simp only at hjob; subst hjob; rfl
+                refine keepH (startPrune { s with mem := { s.mem with pending := 0, sampled := r.1 }, job := .idle } keep').1
+                  (by rw [hstep]; simp only [hok, if_true, hk']; rw [hjs]) (by rw [hsp.2]; exact hh) hsp.1 ?_ ?_ ?_
+                  (startPrune_chain _ _)
+                · rw [hm.1]
+                  show max s.mem.keepMax keep'.toNat ≤ max s.mem.keepMax (allowed c s (.evL1 n))
+                  simp only [allowed, hh]; omega
+                · intro _; rw [hm.2.1]; exact raiseForPrune_ge _ _
+                · intro hmo hma A
+                  have hks := l1Keep_minAge c r.1 h n keep' hma hk'
+                  have hfresh := refreshSample_age (c := c) hmo hma hh IA s.cutoff s.mem.sampled
+                    (fun i hi => A.1 i (by omega))
+                  rw [hr] at hfresh
+                  exact age_startPrune (s := { s with mem := { s.mem with pending := 0, sampled := r.1 }, job := .idle }) hh I0 keep'
+                    (fun m hmk => hfresh m (by omega)) (age_resampled r.1 hsc A)
     | evL2 n =>
       obtain ⟨hseed, hcl⟩ := L
       cases hjob : s.job with
@@ -1267,37 +1496,87 @@ theorem step_facts {c : Cfg} {s : St} (op : Op) (I : Inv c s) (L : Legal c s op)
             | true => exact unchanged (by simp only [step, hjob, hl1, hh, hstale', Bool.false_eq_true, if_false, hg, if_true])
             | false =>
               by_cases hp : s.mem.pending + 1 < c.l2PerPrune
-              · exact keepH ⟨s.db, { s.mem with pending := s.mem.pending + 1 }, s.job, s.cutoff⟩
+              · exact keepH ⟨s.db, { s.mem with pending := s.mem.pending + 1 }, s.job, s.cutoff, s.chain⟩
                   (by simp only [step, hjob, hl1, hh, hstale', hg, Bool.false_eq_true, if_false, hp, if_true]) hh
                   (IA.congr rfl rfl rfl rfl) (by show s.mem.keepMax ≤ _; omega) (fun _ => Nat.le_refl _)
-                  (fun _ _ A => age_keep (Nat.le_refl _) rfl (Nat.le_refl _) A)
-              · have hb := l2Keep_bound c s.mem.sampled l1 n (decide (s.cutoff ≤ c.ts n.toNat)) hg
-                have I0 : InvA c { s with mem := { s.mem with pending := 0 }, job := .idle } h a :=
-                  IA.congr rfl hjob.symm rfl rfl
-                have hsp := inv_startPrune (s := { s with mem := { s.mem with pending := 0 }, job := .idle })
-                  hh I0 rfl (l2Keep c s.mem.sampled n (decide (s.cutoff ≤ c.ts n.toNat))) (by omega) hseed
-                have hm := startPrune_mem { s with mem := { s.mem with pending := 0 }, job := .idle }
-                  (l2Keep c s.mem.sampled n (decide (s.cutoff ≤ c.ts n.toNat)))
-                refine keepH (startPrune { s with mem := { s.mem with pending := 0 }, job := .idle }
-                    (l2Keep c s.mem.sampled n (decide (s.cutoff ≤ c.ts n.toNat)))).1
-                  (by simp only [step, hjob, hl1, hh, hstale', hg, Bool.false_eq_true, if_false, hp])
-                  (by rw [hsp.2]; exact hh) hsp.1 ?_ ?_ ?_
-                · rw [hm.1]
-                  show max s.mem.keepMax (l2Keep c s.mem.sampled n _).toNat ≤ max s.mem.keepMax (allowed c s (.evL2 n))
-                  simp only [allowed, hl1]; omega
-                · intro _; rw [hm.2.1]; exact raiseForPrune_ge _ _
-                · intro hmo hma A
-                  refine age_startPrune (s := { s with mem := { s.mem with pending := 0 }, job := .idle }) hh I0 _ ?_ A
-                  intro m hmk
-                  by_cases hw : s.cutoff ≤ c.ts n.toNat
-                  · -- the event's block is young: the time floor applies
-                    have : (l2Keep c s.mem.sampled n (decide (s.cutoff ≤ c.ts n.toNat))).toNat ≤ s.mem.sampled.toNat := by
-                      simp only [hw, decide_true]; exact l2Keep_minAge c s.mem.sampled n hma
-                    exact A.2 m (by omega)
-                  · -- deep catch-up: the event's block is itself older than the minimum age, and so is every block below it
-                    have := hmo m n.toNat (by omega)
-                    show c.ts m < s.cutoff
-                    omega
+                  (fun _ _ A => age_keep (Nat.le_refl _) rfl (Nat.le_refl _) A) rfl
+              · cases hsc : c.sampleChecked with
+                | false =>
+                  have hb := l2Keep_bound c s.mem.sampled l1 n (decide (s.cutoff ≤ s.tsAt c n.toNat)) hg
+                  have I0 : InvA c { s with mem := { s.mem with pending := 0 }, job := .idle } h a :=
+                    IA.congr rfl hjob.symm rfl rfl
+                  have hsp := inv_startPrune (s := { s with mem := { s.mem with pending := 0 }, job := .idle })
+                    hh I0 rfl (l2Keep c s.mem.sampled n (decide (s.cutoff ≤ s.tsAt c n.toNat))) (by omega) hseed
+                  have hm := startPrune_mem { s with mem := { s.mem with pending := 0 }, job := .idle }
+                    (l2Keep c s.mem.sampled n (decide (s.cutoff ≤ s.tsAt c n.toNat)))
+                  refine keepH (startPrune { s with mem := { s.mem with pending := 0 }, job := .idle }
+                      (l2Keep c s.mem.sampled n (decide (s.cutoff ≤ s.tsAt c n.toNat)))).1
+                    (by simp only [step, hjob, hl1, hh, hstale', hg, Bool.false_eq_true, if_false, hp, hsc])
+                    (by rw [hsp.2]; exact hh) hsp.1 ?_ ?_ ?_ (startPrune_chain _ _)
+                  · rw [hm.1]
+                    show max s.mem.keepMax (l2Keep c s.mem.sampled n _).toNat ≤ max s.mem.keepMax (allowed c s (.evL2 n))
+                    simp only [allowed, hl1]; omega
+                  · intro _; rw [hm.2.1]; exact raiseForPrune_ge _ _
+                  · intro hmo hma A
+                    refine age_startPrune (s := { s with mem := { s.mem with pending := 0 }, job := .idle }) hh I0 _ ?_ A
+                    intro m hmk
+                    by_cases hw : s.cutoff ≤ s.tsAt c n.toNat
+                    · -- the event's block is young: the time floor applies
+                      have : (l2Keep c s.mem.sampled n (decide (s.cutoff ≤ s.tsAt c n.toNat))).toNat ≤ s.mem.sampled.toNat := by
+                        simp only [hw, decide_true]; exact l2Keep_minAge c s.mem.sampled n hma
+                      exact A.2 hsc m (by omega)
+                    · -- deep catch-up: the event's block is itself older than the minimum age, and so is every block below it
+                      have := hmo m n.toNat (by omega)
+                      show s.tsAt c m < s.cutoff
+                      omega
+                | true =>
+                  have hstep : (step c s (.evL2 n)) =
+                      (let r := refreshSample c (s.tsAt c) s.db s.cutoff s.mem.sampled
+                       let s1 : St := { s with mem := { s.mem with pending := 0, sampled := r.1 } }
+                       if r.2 then startPrune s1 (l2Keep c r.1 n (decide (s.cutoff ≤ s.tsAt c n.toNat))) else (s1, .err)) := by
+                    simp only [step, hjob, hl1, hh, hstale', hg, Bool.false_eq_true, if_false, hp, hsc, if_true]
+                  generalize hr : refreshSample c (s.tsAt c) s.db s.cutoff s.mem.sampled = r at hstep
+                  have I1 : InvA c { s with mem := { s.mem with pending := 0, sampled := r.1 } } h a :=
+                    IA.congr rfl rfl rfl rfl
+                  cases hok : r.2 with
+                  | false =>
+                    exact keepH { s with mem := { s.mem with pending := 0, sampled := r.1 } }
+                      (by rw [hstep]; simp only [hok, Bool.false_eq_true, if_false]) hh I1
+                      (by show s.mem.keepMax ≤ _; omega) (fun _ => Nat.le_refl _)
+                      (fun _ _ A => age_resampled r.1 hsc A) rfl
+                  | true =>
+                    have hb := l2Keep_bound c r.1 l1 n (decide (s.cutoff ≤ s.tsAt c n.toNat)) hg
+                    have I0 : InvA c { s with mem := { s.mem with pending := 0, sampled := r.1 }, job := .idle } h a :=
+                      IA.congr rfl hjob.symm rfl rfl
+                    have hsp := inv_startPrune (s := { s with mem := { s.mem with pending := 0, sampled := r.1 }, job := .idle })
+                      hh I0 rfl (l2Keep c r.1 n (decide (s.cutoff ≤ s.tsAt c n.toNat))) (by omega) hseed
+                    have hm := startPrune_mem { s with mem := { s.mem with pending := 0, sampled := r.1 }, job := .idle }
+                      (l2Keep c r.1 n (decide (s.cutoff ≤ s.tsAt c n.toNat)))
+                    have hjs : ({ s with mem := { s.mem with pending := 0, sampled := r.1 } } : St) =
+                        { s with mem := { s.mem with pending := 0, sampled := r.1 }, job := .idle } := by
+                      cases s; simp only at hjob; subst hjob; rfl
+                    refine keepH (startPrune { s with mem := { s.mem with pending := 0, sampled := r.1 }, job := .idle }
+                        (l2Keep c r.1 n (decide (s.cutoff ≤ s.tsAt c n.toNat)))).1
+                      (by rw [hstep]; simp only [hok, if_true]; rw [hjs])
+                      (by rw [hsp.2]; exact hh) hsp.1 ?_ ?_ ?_ (startPrune_chain _ _)
+                    · rw [hm.1]
+                      show max s.mem.keepMax (l2Keep c r.1 n _).toNat ≤ max s.mem.keepMax (allowed c s (.evL2 n))
+                      simp only [allowed, hl1]; omega
+                    · intro _; rw [hm.2.1]; exact raiseForPrune_ge _ _
+                    · intro hmo hma A
+                      have hfresh := refreshSample_age (c := c) hmo hma hh IA s.cutoff s.mem.sampled
+                        (fun i hi => A.1 i (by omega))
+                      rw [hr] at hfresh
+                      refine age_startPrune (s := { s with mem := { s.mem with pending := 0, sampled := r.1 }, job := .idle }) hh I0 _ ?_
+                        (age_resampled r.1 hsc A)
+                      intro m hmk
+                      by_cases hw : s.cutoff ≤ s.tsAt c n.toNat
+                      · have : (l2Keep c r.1 n (decide (s.cutoff ≤ s.tsAt c n.toNat))).toNat ≤ r.1.toNat := by
+                          simp only [hw, decide_true]; exact l2Keep_minAge c r.1 n hma
+                        exact hfresh m (by omega)
+                      · have := hmo m n.toNat (by omega)
+                        show s.tsAt c m < s.cutoff
+                        omega
     | flush k =>
       cases hjob : s.job with
       | idle => exact unchanged (by simp only [step, hjob])
@@ -1316,22 +1595,22 @@ theorem step_facts {c : Cfg} {s : St} (op : Op) (I : Inv c s) (L : Legal c s op)
           cases hfix : c.fixed with
           | false =>
             have hstep : (step c s (.flush k)).1 =
-                (⟨s.db.del (flushDel c st en cu (cu + k) fi), s.mem, .run st en (cu + k) false, s.cutoff⟩ : St) := by
+                (⟨s.db.del (flushDel c st en cu (cu + k) fi), s.mem, .run st en (cu + k) false, s.cutoff, s.chain⟩ : St) := by
               simp only [step, hjob, hk, if_true, hr, hfix, Bool.false_eq_true, if_false]
-            exact keepH ⟨s.db.del (flushDel c st en cu (cu + k) fi), s.mem, .run st en (cu + k) false, s.cutoff⟩ hstep hh
+            exact keepH ⟨s.db.del (flushDel c st en cu (cu + k) fi), s.mem, .run st en (cu + k) false, s.cutoff, s.chain⟩ hstep hh
               (inv_flush_orig k IA hjob hfix hk) (by show s.mem.keepMax ≤ _; omega)
-              (fun _ => Nat.le_refl _) (fun _ _ A => age_keep (Nat.le_refl _) rfl (Nat.le_refl _) A)
+              (fun _ => Nat.le_refl _) (fun _ _ A => age_keep (Nat.le_refl _) rfl (Nat.le_refl _) A) rfl
           | true =>
             have hstep : (step c s (.flush k)).1 =
-                (⟨(s.db.del (flushDel c st en cu (cu + k) fi)).pruneAgg (cu + k), s.mem, .run st en (cu + k) false, s.cutoff⟩ : St) := by
+                (⟨(s.db.del (flushDel c st en cu (cu + k) fi)).pruneAgg (cu + k), s.mem, .run st en (cu + k) false, s.cutoff, s.chain⟩ : St) := by
               simp only [step, hjob, hk, if_true, hr, hfix]
             have hI := inv_flush_fixed k IA hjob hfix hk
             have ha := hacu.2 hfix
             have j3 : en ≤ s.mem.keepMax := hj.2.2.1
             exact facts_some hh IA (by rw [hstep]; exact hh) (by rw [hstep]; exact hI) (by omega) (by omega)
               (by rw [hstep]; show s.mem.keepMax ≤ _; omega) (fun _ => by rw [hstep]; exact Nat.le_refl _)
-              (by rw [hstep]; exact fun hm hma => age_keep (s := s)
-                    (by show max (cu + k) s.mem.keepMax ≤ max a s.mem.keepMax; omega) rfl (Nat.le_refl _) (AG hm hma))
+              (by rw [hstep]; exact ⟨monoI_congr rfl MG, ageI_congr (s := s) rfl MG (fun _ _ A => age_keep (s := s)
+                    (by show max (cu + k) s.mem.keepMax ≤ max a s.mem.keepMax; omega) rfl (Nat.le_refl _) A) AG⟩)
         · exact unchanged (by simp only [step, hjob, hk, if_false])
     | finish =>
       cases hjob : s.job with
@@ -1347,54 +1626,54 @@ theorem step_facts {c : Cfg} {s : St} (op : Op) (I : Inv c s) (L : Legal c s op)
           have hcu : cu < 2 ^ 64 := by have := IA.keepLe; have := IA.hlt; omega
           -- the new sample `max(sampled, cur)`: every block below `cur ≤ keepMax` is old
           have hsamp : ∀ (s' : St) (a' : Nat), s'.mem.sampled = umax s.mem.sampled (UInt64.ofNat cu) →
-              s'.mem.keepMax = s.mem.keepMax → s'.cutoff = s.cutoff → a' ≤ max a s.mem.keepMax →
+              s'.mem.keepMax = s.mem.keepMax → s'.cutoff = s.cutoff → s'.tsAt c = s.tsAt c → a' ≤ max a s.mem.keepMax →
               AgeA c s a → AgeA c s' a' := by
-            intro s' a' e1 e2 e3 e4 A
-            refine ⟨fun n hn => ?_, fun i hi => ?_⟩
-            · rw [e3]; rw [e2] at hn; exact A.1 n (by omega)
-            · rw [e3]; rw [e1, umax_toNat, ofNat_toNat_of_lt cu hcu] at hi
+            intro s' a' e1 e2 e3 e5 e4 A
+            refine ⟨fun n hn => ?_, fun hc i hi => ?_⟩
+            · rw [e3, e5]; rw [e2] at hn; exact A.1 n (by omega)
+            · rw [e3, e5]; rw [e1, umax_toNat, ofNat_toNat_of_lt cu hcu] at hi
               by_cases h1 : i < s.mem.sampled.toNat
-              · exact A.2 i h1
+              · exact A.2 hc i h1
               · exact A.1 i (by omega)
           cases hfix : c.fixed with
           | true =>
-            exact keepH ⟨s.db, { s.mem with sampled := umax s.mem.sampled (UInt64.ofNat cu) }, .idle, s.cutoff⟩
+            exact keepH ⟨s.db, { s.mem with sampled := umax s.mem.sampled (UInt64.ofNat cu) }, .idle, s.cutoff, s.chain⟩
               (by simp only [step, hjob, Bool.false_eq_true, if_false, hfix, if_true]) hh
               ((inv_leave s.mem IA hjob (Or.inl hfix) (Nat.le_refl _) IA.m1 IA.m2 IA.m3).congr rfl rfl rfl rfl)
               (by show s.mem.keepMax ≤ _; omega) (fun _ => Nat.le_refl _)
-              (fun _ _ A => hsamp _ a rfl rfl rfl (by omega) A)
+              (fun _ _ A => hsamp _ a rfl rfl rfl rfl (by omega) A) rfl
           | false =>
             simp only [hfix] at j5
             have j5 : a = st := by simpa using j5
             let m' : Mem := { s.mem with sampled := umax s.mem.sampled (UInt64.ofNat cu) }
-            have hstep : (step c s .finish).1 = (⟨(s.db.del (rangeDel cu)).pruneAgg cu, m', .idle, s.cutoff⟩ : St) := by
+            have hstep : (step c s .finish).1 = (⟨(s.db.del (rangeDel cu)).pruneAgg cu, m', .idle, s.cutoff, s.chain⟩ : St) := by
               simp only [step, hjob, Bool.false_eq_true, if_false, hfix]; rfl
             have hI := inv_finish_orig m' IA hjob hfix rfl rfl
             exact facts_some hh IA (by rw [hstep]; exact hh) (by rw [hstep]; exact hI.congr rfl rfl rfl rfl) (by omega) (by omega)
               (by rw [hstep]; show s.mem.keepMax ≤ _; omega) (fun _ => by rw [hstep]; exact Nat.le_refl _)
-              (by rw [hstep]; exact fun hm hma =>
-                    hsamp ⟨(s.db.del (rangeDel cu)).pruneAgg cu, m', .idle, s.cutoff⟩ cu rfl rfl rfl (by omega) (AG hm hma))
+              (by rw [hstep]; exact ⟨monoI_congr rfl MG, ageI_congr (s := s) rfl MG (fun _ _ A =>
+                    hsamp ⟨(s.db.del (rangeDel cu)).pruneAgg cu, m', .idle, s.cutoff, s.chain⟩ cu rfl rfl rfl rfl (by omega) A) AG⟩)
     | fail =>
       cases hjob : s.job with
       | idle => exact unchanged (by simp only [step, hjob])
       | run st en cu fi =>
         have hI : interruptible c s.job := L
         rw [hjob] at hI
-        exact keepH ⟨s.db, s.mem, .idle, s.cutoff⟩ (by simp only [step, hjob]) hh
+        exact keepH ⟨s.db, s.mem, .idle, s.cutoff, s.chain⟩ (by simp only [step, hjob]) hh
           ((inv_leave s.mem IA hjob hI (Nat.le_refl _) IA.m1 IA.m2 IA.m3).congr rfl rfl rfl rfl) (by show s.mem.keepMax ≤ _; omega)
-          (fun _ => Nat.le_refl _) (fun _ _ A => age_keep (Nat.le_refl _) rfl (Nat.le_refl _) A)
+          (fun _ => Nat.le_refl _) (fun _ _ A => age_keep (Nat.le_refl _) rfl (Nat.le_refl _) A) rfl
     | crash seed =>
       exact restarted seed rfl L (fun hne => hne.1 seed rfl)
     | migrate u =>
       obtain ⟨hjob, hu, hL⟩ := L
       have hInt : interruptible c s.job := by rw [hjob]; trivial
-      have restartOnly : (step c s (.migrate u)).1 = ⟨s.db, restartMem c s.db s.cutoff true, .idle, s.cutoff⟩ →
+      have restartOnly : (step c s (.migrate u)).1 = ⟨s.db, restartMem c (s.tsAt c) s.db s.cutoff true, .idle, s.cutoff, s.chain⟩ →
           StepFacts c s (.migrate u) := fun e =>
         restarted true e hInt (fun hne => hne.2 u rfl)
       cases hl1 : s.db.l1 with
       | none => exact unchanged (by simp only [step, hjob, hh, hl1])
       | some l1 =>
-        cases hk : migKeep c h l1 (migMinAgeFloor c h l1 s.cutoff) with
+        cases hk : migKeep c h l1 (migMinAgeFloor (s.tsAt c) h l1 s.cutoff) with
         | none => exact restartOnly (by simp only [step, hjob, hh, hl1, hk])
         | some keep =>
           obtain ⟨hpos, hfl⟩ := hL h l1 keep hh hl1 hk
@@ -1415,39 +1694,42 @@ theorem step_facts {c : Cfg} {s : St} (op : Op) (I : Inv c s) (L : Legal c s op)
               | true => simp [hu rfl]
             have hr := migrate_reads_ok IA hjob keep.toNat hkpos (by omega) (by omega)
             have hstep : (step c s (.migrate u)).1 =
-                ⟨migrateDb s.db keep.toNat h, restartMem c (migrateDb s.db keep.toNat h) s.cutoff true, .idle, s.cutoff⟩ := by
+                ⟨migrateDb s.db keep.toNat h, restartMem c (s.tsAt c) (migrateDb s.db keep.toNat h) s.cutoff true, .idle, s.cutoff, s.chain⟩ := by
               simp only [step, hjob, hh, hl1, hk, hz, if_false, hu', Bool.false_eq_true, hr, if_true]
             have I1 := inv_migrate IA hjob keep.toNat hkpos (by omega) (by omega)
-            have hh1 : (⟨migrateDb s.db keep.toNat h, ({} : Mem), Job.idle, 0⟩ : St).db.height = some h := hh
-            have hrm : (restartMem c (migrateDb s.db keep.toNat h) s.cutoff true).keepMax = 0 ∧
-                ((restartMem c (migrateDb s.db keep.toNat h) s.cutoff true).floorState ≠ 0 →
-                  keep.toNat ≤ (restartMem c (migrateDb s.db keep.toNat h) s.cutoff true).floorState.toNat) ∧
-                (restartMem c (migrateDb s.db keep.toNat h) s.cutoff true).floorState.toNat ≤ max keep.toNat 1 :=
-              restartMem_ok hh1 I1 s.cutoff true
+            have hh1 : (⟨migrateDb s.db keep.toNat h, ({} : Mem), Job.idle, 0, {}⟩ : St).db.height = some h := hh
+            have hrm : (restartMem c (s.tsAt c) (migrateDb s.db keep.toNat h) s.cutoff true).keepMax = 0 ∧
+                ((restartMem c (s.tsAt c) (migrateDb s.db keep.toNat h) s.cutoff true).floorState ≠ 0 →
+                  keep.toNat ≤ (restartMem c (s.tsAt c) (migrateDb s.db keep.toNat h) s.cutoff true).floorState.toNat) ∧
+                (restartMem c (s.tsAt c) (migrateDb s.db keep.toNat h) s.cutoff true).floorState.toNat ≤ max keep.toNat 1 :=
+              restartMem_ok hh1 I1 (s.tsAt c) s.cutoff true
             obtain ⟨r1, r2, r3⟩ := hrm
             have hk0 : (({} : Mem)).keepMax = 0 := rfl
-            have I2 := inv_leave_idle (restartMem c (migrateDb s.db keep.toNat h) s.cutoff true) I1 rfl (by omega)
+            have I2 := inv_leave_idle (restartMem c (s.tsAt c) (migrateDb s.db keep.toNat h) s.cutoff true) I1 rfl (by omega)
               (fun hne => ⟨r2 hne, by omega⟩) (by omega) (by omega)
-            have I2' : InvA c ⟨migrateDb s.db keep.toNat h, restartMem c (migrateDb s.db keep.toNat h) s.cutoff true, .idle, s.cutoff⟩ h keep.toNat :=
+            have I2' : InvA c ⟨migrateDb s.db keep.toNat h, restartMem c (s.tsAt c) (migrateDb s.db keep.toNat h) s.cutoff true, .idle, s.cutoff, s.chain⟩ h keep.toNat :=
               I2.congr rfl rfl rfl rfl
             refine facts_some hh IA (by rw [hstep]; exact hh) (by rw [hstep]; exact I2') (by omega)
               (by simp only [allowed, hh, hl1]; omega)
-              (by rw [hstep]; show (restartMem c _ _ true).keepMax ≤ _; omega)
+              (by rw [hstep]; show (restartMem c _ _ _ true).keepMax ≤ _; omega)
               (fun hne => absurd rfl (hne.2 u)) ?_
             rw [hstep]
-            intro hm hma
+            refine ⟨monoI_congr rfl MG, fun h1 h2 h3 hma _ => ?_⟩
+            have hm : Mono (s.tsAt c) := MG h1 h2 h3
             have hold := migKeep_age hm hma h IA.hlt l1 keep s.cutoff hk
-            refine ⟨fun n hn => hold n ?_, ?_⟩
-            · have : (restartMem c (migrateDb s.db keep.toNat h) s.cutoff true).keepMax = 0 := r1
+            refine ⟨fun n hn => hold n ?_, fun _ => ?_⟩
+            · have : (restartMem c (s.tsAt c) (migrateDb s.db keep.toNat h) s.cutoff true).keepMax = 0 := r1
               simp only [this] at hn; omega
-            · exact seedSample_age (s := ⟨migrateDb s.db keep.toNat h, ({} : Mem), Job.idle, 0⟩) hm hh1 I1 s.cutoff hold
+            · exact seedSample_age (s := ⟨migrateDb s.db keep.toNat h, ({} : Mem), Job.idle, 0, {}⟩) hm hh1 I1 s.cutoff hold
 
 theorem inv_step {c : Cfg} {s : St} (op : Op) (I : Inv c s) (L : Legal c s op) :
     Inv c (step c s op).1 := (step_facts op I L).inv
 
 theorem inv_init (c : Cfg) : Inv c St.init := by
   unfold Inv St.init Db.empty
-  simp
+  refine ⟨⟨fun _ _ => rfl, fun _ => rfl⟩, rfl, rfl, by decide, rfl, ?_⟩
+  intro h1 _ _
+  exact h1
 
 theorem inv_reach {c : Cfg} {s : St} (R : Reach c s) : Inv c s := by
   induction R with
